@@ -296,7 +296,7 @@ class Theory:
         the theory.
 
         """
-        if t.is_var():
+        if t.is_svar() or t.is_var():
             return None
         elif t.is_const():
             try:
@@ -417,6 +417,14 @@ class Theory:
                 assert macro.level is None or (isinstance(macro.level, int) and macro.level >= 0), \
                     ("check_proof: invalid macro level " + str(macro.level))
                 if macro.level is not None and macro.level <= check_level:
+                    # The result is taken on trust, so the argument must at least
+                    # be a term of the theory: every constant is used at an
+                    # instance of its declared type (the evaluators go by names).
+                    if isinstance(seq.args, Term):
+                        try:
+                            self.check_term(seq.args)
+                        except (TheoryException, TypeError):
+                            raise CheckProofException("argument of %s is not a term of the theory" % seq.rule)
                     res_th = macro.eval(seq.args, prev_ths)
                     if rpt is not None:
                         rpt.eval_macro(seq.rule)
